@@ -36,9 +36,13 @@ def _covered(chain: str, written: Set[str]) -> bool:
 
 
 class EffectAnalyzer:
-    def __init__(self, prog: Program, self_name: str = "self"):
+    def __init__(self, prog: Program, self_name: str = "self", attr_types=None):
         self.prog = prog
         self.self_name = self_name
+        # optional: cls qualname -> {"self.attr": [class qualnames of the object held there]}; with it, a call on an
+        # attribute object is summarised THROUGH the object: the callee's effects on its own `self.x` become effects
+        # on `self.attr.x` of the caller
+        self.attr_types = attr_types
         self.memo: Dict[str, Effects] = {}
         self.stack: List[str] = []
 
@@ -53,8 +57,12 @@ class EffectAnalyzer:
         eff = Effects()
         cls_q = f"{fi.module}.{fi.cls}" if fi.cls else None
         locals_funcs = {n.name: n for n in ast.walk(fi.node) if isinstance(n, ast.FunctionDef) and n is not fi.node}
+        self._rets = getattr(self, "_rets", [])
+        self._rets.append([])
         w = self._block(fi.node.body, set(), eff, fi, cls_q, locals_funcs)
-        eff.must_write = set(w) if w is not None else set()
+        exits = self._rets.pop() + ([set(w)] if w is not None else [])
+        # written on every path that returns normally: at every `return` and at the end of the body
+        eff.must_write = set.intersection(*exits) if exits else set()
         self.stack.pop()
         self.memo[q] = eff
         return eff
@@ -124,6 +132,28 @@ class EffectAnalyzer:
                     eff.may_write.setdefault(recv, n)
                 else:
                     eff.foreign.append((recv, f.attr, n))
+                    if self.attr_types is not None and cls_q and recv.count(".") == 1:
+                        tys = self.attr_types(cls_q).get(recv, [])
+                        sums = []
+                        for ty in tys:
+                            cal = self.prog.method(ty, f.attr)
+                            if cal is not None:
+                                sums.append(self.method(cal))
+                        if sums and len(sums) == len(tys):
+                            def tr(c):
+                                return recv + c[len(self.self_name):] if c == self.self_name or c.startswith(self.self_name + ".") else None
+
+                            for sm in sums:
+                                for c, nd in sm.exposed.items():
+                                    t = tr(c)
+                                    if t and not _covered(t, W):
+                                        eff.exposed.setdefault(t, n)
+                                for c, nd in sm.may_write.items():
+                                    t = tr(c)
+                                    if t:
+                                        eff.may_write.setdefault(t, n)
+                            must = set.intersection(*[set(sm.must_write) for sm in sums]) if sums else set()
+                            W |= {tr(c) for c in must if tr(c)}
             # super().__init__ / Base.__init__(self, ...)
             if isinstance(f.value, ast.Call) and attr_chain(f.value.func) == "super" and cls_q:
                 for c in self.prog.mro(cls_q)[1:]:
@@ -224,6 +254,8 @@ class EffectAnalyzer:
             return W
         if isinstance(s, ast.Return):
             R(s.value)
+            if getattr(self, "_rets", None):
+                self._rets[-1].append(set(W))
             return None
         if isinstance(s, ast.Raise):
             R(s.exc)
